@@ -85,3 +85,4 @@ pub assume_specification [i64::abs_diff] (a: i64, b: i64) -> (r: u64) ensures r 
 pub assume_specification<T> [core::option::Option::<T>::or] (a: Option<T>, b: Option<T>) -> (r: Option<T>)
     where T: core::marker::Destruct,
     ensures r == (if a is Some { a } else { b });
+pub broadcast axiom fn axiom_slice_i64_len(s: &[i64]) ensures #[trigger] s@.len() <= 0x0FFF_FFFF_FFFF_FFFF;
